@@ -158,6 +158,9 @@ struct Slot<V> {
     val: Nat,
     /// normalised by construction (see module docs)
     norm: bool,
+    /// heap back-end: the storage was created by `new` / `try_from` / `from_u64` (design
+    /// capacity 62 limbs), not by `Clone` (which allocates exactly `len`, DESIGN 7.2)
+    fresh: bool,
 }
 
 fn viol(clause: &str, step: usize, op: &BOp, detail: String) -> Violation {
@@ -182,7 +185,7 @@ pub fn run_case<W: World>(case: &BigCase, stats: &mut Stats) -> Result<BigRunInf
     let mut info = BigRunInfo::default();
     let mut fp = Fp::new();
     let mut sl: Vec<Slot<W::V>> =
-        (0..NSLOTS).map(|_| Slot { v: W::V::v_new(), val: Nat::zero(), norm: true }).collect();
+        (0..NSLOTS).map(|_| Slot { v: W::V::v_new(), val: Nat::zero(), norm: true, fresh: true }).collect();
 
     for (step, op) in case.ops.iter().enumerate() {
         stats.inc(op.key());
@@ -202,19 +205,19 @@ pub fn run_case<W: World>(case: &BigCase, stats: &mut Stats) -> Result<BigRunInf
         // ---- queries and non-failing ops first ----
         match op {
             BOp::FromU64 { s, x } => {
-                sl[*s as usize] = Slot { v: W::from_u64(*x), val: Nat::from_u64(*x), norm: true };
+                sl[*s as usize] = Slot { v: W::from_u64(*x), val: Nat::from_u64(*x), norm: true, fresh: true };
                 check_value::<W>(&sl, *s, step, op)?;
                 continue;
             },
             BOp::BigFromU64 { s, x } => {
-                sl[*s as usize] = Slot { v: W::bigint_from_u64(*x), val: Nat::from_u64(*x), norm: true };
+                sl[*s as usize] = Slot { v: W::bigint_from_u64(*x), val: Nat::from_u64(*x), norm: true, fresh: true };
                 check_value::<W>(&sl, *s, step, op)?;
                 continue;
             },
             BOp::SetLimbs { s, data } => {
                 let d: &[u64] = if stack && data.len() > CAP { &data[..CAP] } else { data };
                 let v = W::V::v_try_from(d).expect("harness: try_from within capacity");
-                sl[*s as usize] = Slot { v, val: Nat::from_limbs64(d), norm: lit_norm(d) };
+                sl[*s as usize] = Slot { v, val: Nat::from_limbs64(d), norm: lit_norm(d), fresh: true };
                 if !lit_norm(d) {
                     stats.inc("reach.unnormalised_operand_injected");
                 }
@@ -231,7 +234,7 @@ pub fn run_case<W: World>(case: &BigCase, stats: &mut Stats) -> Result<BigRunInf
                 continue;
             },
             BOp::CloneTo { dst, src } => {
-                let c = Slot { v: sl[*src as usize].v.clone(), val: sl[*src as usize].val.clone(), norm: sl[*src as usize].norm };
+                let c = Slot { v: sl[*src as usize].v.clone(), val: sl[*src as usize].val.clone(), norm: sl[*src as usize].norm, fresh: false };
                 sl[*dst as usize] = c;
                 check_value::<W>(&sl, *dst, step, op)?;
                 continue;
@@ -322,6 +325,7 @@ pub fn run_case<W: World>(case: &BigCase, stats: &mut Stats) -> Result<BigRunInf
         let mut skip = false;
         let len0;
         let cap0;
+        let fresh0;
         let mut may_fail_on_heap = false; // shl_limbs family
         let mut heap_exact_fail: Option<bool> = None;
         let mut panics_instead = false;
@@ -483,6 +487,7 @@ pub fn run_case<W: World>(case: &BigCase, stats: &mut Stats) -> Result<BigRunInf
             }
             len0 = d(dest).v.len();
             cap0 = d(dest).v.v_capacity();
+            fresh0 = d(dest).fresh;
         }
         let _ = len0;
         if skip {
@@ -573,6 +578,9 @@ pub fn run_case<W: World>(case: &BigCase, stats: &mut Stats) -> Result<BigRunInf
                 ));
             }
             t.val = want;
+            if matches!(op, BOp::LongMul { .. }) {
+                t.fresh = true; // the product is a new vector made by try_from
+            }
             t.norm = res_norm && slack == 0 || (res_norm && before_norm);
             check_value::<W>(&sl, dest, step, op)?;
         } else {
@@ -589,7 +597,7 @@ pub fn run_case<W: World>(case: &BigCase, stats: &mut Stats) -> Result<BigRunInf
                 exact
             } else if may_fail_on_heap {
                 // available capacity = the vector's own capacity (DESIGN §7.2)
-                cap0 < CAP || need + slack > CAP
+                (!fresh0 && cap0 < CAP) || need + slack > CAP
             } else {
                 // beyond the 62-limb design capacity the statement only demands
                 // "exact or reported failure"; within it the heap back-end never fails
@@ -621,6 +629,17 @@ pub fn run_case<W: World>(case: &BigCase, stats: &mut Stats) -> Result<BigRunInf
             t.v = W::V::v_try_from(&lim).expect("harness: rebuild within capacity");
             t.val = before_val;
             t.norm = true;
+            t.fresh = true;
+        }
+        if let (Some(true), false, true) = (heap_exact_fail, succeeded, fresh0) {
+            if need + slack <= CAP {
+                return Err(viol(
+                    "spurious-failure",
+                    step,
+                    op,
+                    format!("shl_limbs refused a shift within the 62-limb design capacity on a vector created by new/try_from/from_u64 (its capacity is {})", cap0),
+                ));
+            }
         }
         // the explicit heap-exact rule also demands failure when predicted
         if let (Some(true), true) = (heap_exact_fail, succeeded) {
@@ -781,9 +800,13 @@ pub fn gen_case(seed: u64, world: usize, native_poison: bool, steered: bool, max
                 },
                 15 | 16 => BOp::LargeMul {
                     s,
-                    y: if r.chance(1, 2) { Operand::Slot(o) } else { Operand::Lit(draw_lit(&mut r, 6)) },
+                    y: match r.below(6) {
+                        0 => Operand::Slot(s),
+                        1 | 2 => Operand::Slot(o),
+                        _ => Operand::Lit(draw_lit(&mut r, 6)),
+                    },
                 },
-                17 => BOp::BigMulAssign { s, y: o },
+                17 => BOp::BigMulAssign { s, y: if r.chance(1, 3) { s } else { o } }, // (a third are squarings: rhs == self)
                 18 | 19 | 20 => BOp::Pow5 { s, e: draw_exp(&mut r) },
                 21 | 22 => BOp::BigPow { s, base: *r.pick(&[2u32, 5, 10, 10]), e: draw_exp(&mut r) },
                 23 | 24 => BOp::Shl { s, n: draw_shift(&mut r) },
